@@ -8,10 +8,14 @@ claims = json.load(open(os.path.join(HERE, 'claims.json')))
 props = [json.loads(l) for l in open(os.path.join(V, 'properties.jsonl'))]
 TB = ('Trusted: Coq 8.16.1 kernel (coqc; coqchk in the thorough tier), no native_compute; no axioms of ours '
       '(Print Assumptions parsed on every run; only the stdlib Reals/classical axioms sig_not_dec, sig_forall_dec, '
-      'functional_extensionality_dep, classic are whitelisted, for RealFacts); the data translator tools/py2v_data.py; '
+      'functional_extensionality_dep, classic are whitelisted, for RealFacts); the data translator tools/py2v_data.py and the '
+      'function-body translator tools/py2v_fn.py with its specs tools/fnspecs/*.py (which source expressions / statement ranges '
+      'are opaque inputs; `/` read as the total Qdiv with the zero-divisor case a recorded guard; floats as exact rationals; '
+      'validated on every build by tools/fn_selftest.py, a test); '
       'extraction (ExtrOcamlBasic directives only) + coq/ocaml/driver.ml; the Python harness (generators, canonicalisation, '
-      '1e-9 float-vs-rational comparison). The Python code is modelled, not verified: the tie is the differential '
-      'correspondence run on every check. ')
+      '1e-9 float-vs-rational comparison). The Python code is modelled, not verified: the ties are the source-tie theorems '
+      'C<ID>_source_* over definitions regenerated from the Python source on every run, and the differential correspondence run '
+      'on every check. ')
 checks, na = [], []
 for p in props:
     pid = p['id']
